@@ -12,7 +12,7 @@ CLAIMED = {
  },
  "C02": {
   "technique": "Lean 4 theorems over regenerated float macros/emitter table + exact soft-float spec + runtime-ops/e2e differential tie",
-  "text": "FMIN/FMAX regenerated from w2c2_base.h are proved equal to WebAssembly fmin/fmax for all operand bit patterns (incl. signed zeros, NaN→NaN); all 16 truncation macros are proved to trap with invalid-conversion (saturating: yield 0) on every NaN payload; for each of the 70 float/conversion opcodes the emitted statement is proved to compute the IEEE operation / cast chain / bit-level operation the specification names, with IEEE arithmetic given by an exact soft-float (CSem.Float) that is tested against the CPU on every run. Exactness of the finite truncation range guards is currently tied by boundary-neighbour differential runs (theorem trunc_guard_exact pending), stated as partial in the evidence.",
+  "text": "FMIN/FMAX regenerated from w2c2_base.h are proved equal to WebAssembly fmin/fmax for all operand bit patterns (incl. signed zeros, NaN→NaN); all 16 truncation macros are proved to trap with invalid-conversion (saturating: yield 0) on every NaN payload; for each of the 70 float/conversion opcodes the emitted statement is proved to compute the IEEE operation / cast chain / bit-level operation the specification names, with IEEE arithmetic given by an exact soft-float (CSem.Float) that is tested against the CPU on every run. trunc_guard_exact (Props/C02Guards, C02TruncOps): for ALL operand bit patterns each of the 16 float-to-int truncation opcodes computes exactly the specification's trunc (trap codes included) / trunc_sat — the range guards of the TRUNC macros are exact (they compare with integer constants; Lemmas/Trunc), so the C cast is only evaluated where it is defined.",
   "design_ref": "DESIGN.md §5 C02",
   "note": "Trusted: Lean kernel; tools/extract; CPU/libm IEEE-754 binary32/64 RNE arithmetic = CSem.Float (assumption, exercised by e2e on boundary+random operands each run); gcc gives casts the C11 meaning.",
  },
@@ -114,9 +114,9 @@ CLAIMED = {
  },
  "C11": {
   "technique": "Lean 4 proofs that the translator model's output compiles (declared slots, unique labels, goto targets) and that numeric statements are never undefined (UB-tracking C semantics over regenerated macros/tables) + compile/sanitizer/cross-compiler matrix on the real output",
-  "text": "decls_cover_uses: every slot variable mentioned by the emitted body and the return statement is declared; labels_well_formed: labels are pairwise distinct, never L0, every goto has a target — for every function the (strict) translator model accepts, by structural induction over all instructions; C11Ops: for 120 numeric opcodes the emitted statement (dispatch table and macros regenerated from c.c / w2c2_base.h) evaluates for ALL operand values to a value or the specified trap, never to signed overflow, oversized shift, division overflow or a builtin outside its domain. The model is tied token by token to the real w2c2; the real output of generated and directed modules is compiled with gcc and clang at -O0..-O3, gnu89/default, plain and ASan+UBSan, must compile, report nothing, and agree across all builds and with V8.",
+  "text": "decls_cover_uses: every slot variable mentioned by the emitted body and the return statement is declared; labels_well_formed: labels are pairwise distinct, never L0, every goto has a target — for every function the (strict) translator model accepts, by structural induction over all instructions; C11Ops: for all 136 numeric opcodes (incl. the 16 float-to-int truncations, via the exact range guards of Props/C02Guards) the emitted statement (dispatch table and macros regenerated from c.c / w2c2_base.h) evaluates for ALL operand values to a value or the specified trap, never to signed overflow, oversized shift, division overflow or a builtin outside its domain. The model is tied token by token to the real w2c2; the real output of generated and directed modules is compiled with gcc and clang at -O0..-O3, gnu89/default, plain and ASan+UBSan, must compile, report nothing, and agree across all builds and with V8.",
   "design_ref": "DESIGN.md §5 C11, §10",
-  "note": "The 16 float-to-int truncation opcodes (pendingOpcodes) are guarded by the TRUNC macros: NaN rejection is proved (C02), exactness of the range guard is tested at every boundary neighbour under UBSan, not proved. Module-level C text (Init*, struct, exports) compiles by the matrix only. Trusted: CSem's reading of C; sanitizer completeness on executed paths.",
+  "note": "Module-level C text (Init*, struct, exports) compiles by the matrix only. Trusted: CSem's reading of C; sanitizer completeness on executed paths.",
  },
 }
 
